@@ -58,6 +58,10 @@ class EventPlayer(FlatConfigPlayer):
                 else:
                     self._post_event(event, s["priority"], s["params"])
 
+    def clear_context(self, context):
+        """Forget the last values of the subscriptions of this context."""
+        self._reset_instance_dict(context)
+
     def _post_event(self, event, priority, params, **kwargs):
         if "(" in event:
             # TODO: move this to parsing time
